@@ -130,13 +130,21 @@ def run_engine(ctx, args, name="result", timeout=None, selftest=True):
         res["selftest"] = [(d["name"], d["status"]) for d in st]
     if record:
         import glob
-        files = sorted(glob.glob(record + ".*"))
-        diffs = [solver_diff(ctx, f) for f in files]
-        res["solver_diff"] = {"transcripts": len(files), "queries_compared": sum(d.get("queries", 0) for d in diffs),
+        allfiles = sorted(glob.glob(record + ".*"), key=os.path.getsize)
+        files = allfiles[:SOLVER_DIFF_FILES]
+        from concurrent.futures import ThreadPoolExecutor
+        with ThreadPoolExecutor(max_workers=max(1, NCPU // 2)) as ex:
+            diffs = list(ex.map(lambda f: solver_diff(ctx, f), files))
+        res["solver_diff"] = {"transcripts": len(files), "transcripts_recorded": len(allfiles), "per_solver_timeout_s": SOLVER_DIFF_TIMEOUT,
+                              "queries_compared": sum(d.get("queries", 0) for d in diffs),
                               "skipped": [d["skipped"] for d in diffs if "skipped" in d][:3],
                               "z3-new": sorted({d.get("z3-new", "-") for d in diffs if "queries" in d and d["queries"]})[:3],
                               "cvc5": sorted({d.get("cvc5", "-") for d in diffs if "queries" in d and d["queries"]})[:3]}
     return res
+
+
+SOLVER_DIFF_TIMEOUT = 600   # seconds per solver and transcript; a timeout is recorded, not fatal
+SOLVER_DIFF_FILES = 8       # transcripts (engine workers) compared per engine run, smallest first
 
 
 def solver_diff(ctx, transcript, limit_bytes=80 << 20):
@@ -149,7 +157,7 @@ def solver_diff(ctx, transcript, limit_bytes=80 << 20):
 
     def run(argv, text):
         try:
-            p = subprocess.run(argv, input=text, stdout=subprocess.PIPE, stderr=subprocess.STDOUT, text=True, timeout=1800)
+            p = subprocess.run(argv, input=text, stdout=subprocess.PIPE, stderr=subprocess.STDOUT, text=True, timeout=SOLVER_DIFF_TIMEOUT)
         except subprocess.TimeoutExpired:
             return None
         return pat.findall(p.stdout)
